@@ -32,7 +32,7 @@ import tempfile
 import framework as fw
 import c13 as m
 
-KEY_FILL = "C12/definition-reference-filled-not-restored"
+KEY_FILL = "C12/definition-reference-filled-not-restored"     # fixed (known_findings.d/C12.json); no longer classified
 OWN_NAMES = ["o1", "o2", "o3"]
 _PRIVATE = {"dir": None, "n": 0, "root": None, "owner": None}
 
@@ -821,8 +821,12 @@ class C12(fw.Check):
         "copy_is_faithful",
         "link_adds_only_general",
         "unmerge_restores",
-        "clean_after_link_partial",
-        "clean_finalize_counterexample",
+        "clean_after_link",
+        "clean_finalize_restores",
+        "filled_definition_taken_back",
+        "clean_keeps_user_edit",
+        "unmerge_notMerged",
+        "clean_restores_attrs_general",
         "cycle_stable",
         "cleanSec_noLinks",
         "clean_sec_restores",
@@ -1231,8 +1235,8 @@ class C12(fw.Check):
                                    "not its own (content that came with the resolution)" % (extra, p))
 
     def finding_key(self, case, obs, failure):
-        if failure.startswith("restore-fill:"):
-            return KEY_FILL
+        # no open finding: "restore-fill:" (the former C12/definition-reference-filled-not-restored,
+        # fixed) is a violation like every other oracle failure
         return None
 
     def tag(self, case, obs):
